@@ -339,18 +339,28 @@ pub fn ref_matrices<S: Lin>(
 /// A non-zero message x (length n_cols) whose encoding vanishes on the first `m` positions, found by
 /// Gaussian elimination over the encodings of the unit vectors (the code is linear); None if only x = 0 does.
 pub fn message_vanishing_on_prefix<S: Lin>(ck: &Ck<S>, n_cols: usize, m: usize, seed: u64) -> Option<Vec<Fr>> {
+    let pos: Vec<usize> = (0..m).collect();
+    message_vanishing_on::<S>(ck, n_cols, &pos, seed)
+}
+
+/// the same for an arbitrary set of codeword positions
+pub fn message_vanishing_on<S: Lin>(ck: &Ck<S>, n_cols: usize, positions: &[usize], seed: u64) -> Option<Vec<Fr>> {
     use ark_ff::Field;
-    // a[j][i] = E(e_i)[j] for j < m: solve a x = 0
+    let mut pos: Vec<usize> = positions.to_vec();
+    pos.sort();
+    pos.dedup();
+    let m = pos.len();
+    // a[j][i] = E(e_i)[pos_j]: solve a x = 0
     let mut a = vec![vec![Fr::zero(); n_cols]; m];
     for i in 0..n_cols {
         let mut e = vec![Fr::zero(); n_cols];
         e[i] = Fr::from(1u64);
         let Out::Ok(w) = encode::<S>(ck, &e) else { return None };
-        if w.len() < m {
+        if pos.iter().any(|p| *p >= w.len()) {
             return None;
         }
-        for j in 0..m {
-            a[j][i] = w[j];
+        for (j, p) in pos.iter().enumerate() {
+            a[j][i] = w[*p];
         }
     }
     // row-reduce
